@@ -63,7 +63,9 @@ def selfvalidate(rep, pid):
                        ("hoisted_calls", "call arguments that are calls computed into temporaries first (h = g(x); y = f(h))"),
                        ("inlined_temporaries", "call-free single-use temporaries written into the statement that follows them"),
                        ("split_chains", "chained comparisons written as conjunctions (a <= x <= b as a <= x and x <= b)"),
-                       ("ternaries", "if/else assigning one name on both sides written as a conditional expression, and conditional expressions as if/else")):
+                       ("ternaries", "if/else assigning one name on both sides written as a conditional expression, and conditional expressions as if/else"),
+                       ("reordered_definitions", "consecutive function definitions of every class and module written in reverse order"),
+                       ("unpacked_calls", "tuple results unpacked through a temporary (u = f(); a = u[0]; b = u[1])")):
         vs.append(dict(pid=pid, name=f"twin: {what}", expect="silent", edits=[], tier="quick", mentions=None, transform=kind))
     with cf.ThreadPoolExecutor(min(16, os.cpu_count() or 4)) as ex:
         res = list(ex.map(selftest.run_variant, vs))
